@@ -99,6 +99,9 @@ type node interface {
 
 	// size returns the size of the node.
 	size() int64
+
+	// isOwner reports whether the user u is the owner of the node.
+	isOwner(u avfs.UserReader) bool
 }
 
 // volumes are the volumes names for Windows and their root directories.
